@@ -69,7 +69,7 @@ def events(names, obs, result, vocab=W.VOCAB):
                         hand.pop(0)          # the child was started but the message refused
                     ev.append('dataFailed')
             else:
-                ev.append('other')
+                ev.append('dataRefused')
         elif n == 'starttls':
             ev.append('tls' if codes == ['220'] else 'other')
         else:
